@@ -122,8 +122,11 @@ SHORT_CIRCUIT = {
     "find_map": ({"Some"}, {"None"}), "map_while": ({"None"}, {"Some"}), "take_while": ({False}, {True}),
     "any": ({True}, {False}), "find": ({True}, {False}), "position": ({True}, {False}), "rposition": ({True}, {False}),
     "all": ({False}, {True}),
-    "try_fold": ({"Break", "None"}, {"Continue", "Some", "Ok"}), "try_for_each": ({"Break", "None"}, {"Continue", "Some", "Ok"}),
-    "try_rfold": ({"Break", "None"}, {"Continue", "Some", "Ok"}),
+    # the try_* consumers stop at the first residual of the closure's Try type — Break, None, and for a Result the Err the
+    # closure builds itself (`Err(Halt::Decided(v))`: a decision carried in the Err channel; an Err that a `?` hands on
+    # is someone else's error and no decision — it is never under a verdict anyway)
+    "try_fold": ({"Break", "None", "Err"}, {"Continue", "Some", "Ok"}), "try_for_each": ({"Break", "None", "Err"}, {"Continue", "Some", "Ok"}),
+    "try_rfold": ({"Break", "None", "Err"}, {"Continue", "Some", "Ok"}),
 }
 EXHAUSTIVE = {"fold", "rfold", "for_each", "map", "filter", "filter_map", "flat_map", "inspect", "scan", "skip_while", "partition", "max_by_key", "min_by_key"}
 
@@ -169,15 +172,46 @@ def skippable(ctx, facts, roles, u, name, cfg, K3, expanded):
         memo[b.key] = path_avoiding(b, lambda t: must_interpret(t) or "from_residual" in (callee_path(t) or ""))
         return memo[b.key]
 
+    vmemo = {}
+
+    def yields_verdict(k):
+        """The local function `k` answers with a truthiness verdict: a bool function that consults the shared
+        truthiness function, or a function whose success payload is a bool (`Result<bool, _>`, `Option<bool>`) and
+        every successful result of which is computed from a verdict of the shared function (`Ok(truthy(&evaluated))`
+        behind the parse and the evaluation of a condition)."""
+        if k in truthy_keys:
+            return True
+        if k in vmemo:
+            return vmemo[k]
+        vmemo[k] = False
+        out = facts.items.get(k, {}).get("output") or ""
+        if out == "bool":
+            vmemo[k] = bool(facts.reach([k]) & truthy_keys)
+        elif re.match(r"^(std|core)::(result::Result<bool, .*>|option::Option<bool>)$", out):
+            hb = facts.body(k)
+            if hb is not None and hb.kind == "fn":
+                r = strip_refs(hb.trace(0))
+                alts = [strip_refs(x) for x in r[2]] if r[0] == "phi" else [r]
+                good, other = 0, 0
+                for a in alts:
+                    if a[0] == "agg" and a[1].get("variant") in ("Ok", "Some") and a[2]:
+                        if expr_mentions(a[2][0], lambda y: y[0] == "call" and y[1] is not None and y[1].get("local") and yields_verdict(y[1].get("key"))):
+                            good += 1
+                        else:
+                            other += 1
+                    elif (a[0] == "agg" and a[1].get("variant") in ("Err", "None")) or (a[0] == "call" and a[1] and "from_residual" in a[1]["path"]):
+                        continue
+                    else:
+                        other += 1
+                vmemo[k] = good >= 1 and other == 0
+        return vmemo[k]
+
     def is_verdict(b, bi):
         t = b.blocks[bi]["term"]
         c = callee_of(t) if t["k"] == "Call" else None
         if not c or not c.get("local"):
             return False
-        if c["key"] in truthy_keys:
-            return True
-        it = facts.items.get(c["key"], {})
-        return it.get("output") == "bool" and bool(facts.reach([c["key"]]) & truthy_keys)
+        return yields_verdict(c["key"])
 
     def result_kind(b, e):
         """Outer constructor / boolean constant of a result expression; "verdict" for an expression that is computed
@@ -186,7 +220,7 @@ def skippable(ctx, facts, roles, u, name, cfg, K3, expanded):
         if e is None:
             return None
         if e[0] == "agg" and e[1].get("variant"):
-            return "error" if e[1]["variant"] == "Err" else e[1]["variant"]
+            return e[1]["variant"]          # "Err": an error value built here (a `?` handing on someone else's error is "error")
         if e[0] == "const":
             from .core import const_value
             v = const_value(e[1])
@@ -210,7 +244,8 @@ def skippable(ctx, facts, roles, u, name, cfg, K3, expanded):
         """The branch condition is a truthiness verdict, or is computed from one (`truthy(v) == stop_on`, `!truthy(v)`)."""
         if k_[0] == "site":
             return is_verdict(b, k_[1])
-        return any(isinstance(x, str) and any((tk + "@") in x for tk in truthy_keys) for x in k_[1:])
+        vk = set(truthy_keys) | {hk for hk in u.keys if hk not in truthy_keys and facts.body(hk) is not None and facts.body(hk).kind == "fn" and facts.items.get(hk, {}).get("output") != "bool" and yields_verdict(hk)}
+        return any(isinstance(x, str) and any((tk + "@") in x for tk in vk) for x in k_[1:])
 
     # the code that runs once per operand
     pe = {}       # key -> (kind, body, extra)
@@ -252,7 +287,7 @@ def skippable(ctx, facts, roles, u, name, cfg, K3, expanded):
                     if p_.truncated:
                         continue
                     rk = result_kind(b, p_.result)
-                    if rk == "error":
+                    if rk == "error" or (rk == "Err" and "Err" not in stop_v):
                         continue
                     if rk == "verdict":
                         verdicts.append(p_)
@@ -309,7 +344,7 @@ def skippable(ctx, facts, roles, u, name, cfg, K3, expanded):
                     continue
                 if any(k_[0] == "variant" and v_ == "None" and "::next" in k_[1] for k_, v_ in p_.atoms.items()) and not any(bx in blocks and bx != h and b.blocks[bx]["term"]["k"] == "Call" and is_eval(b.blocks[bx]["term"]) for bx in p_.blocks):
                     continue      # the iterator is exhausted
-                if result_kind(b, p_.result) == "error":
+                if result_kind(b, p_.result) in ("error", "Err"):
                     continue
                 stops.append(p_)
             if split(b, stops, conts):
